@@ -87,11 +87,14 @@ var verifyReqs = []verifyReq{
 }
 
 func (c *Ctx) reqHolds(r verifyReq) (bool, string) {
-	T := c.namedType(c.lz, r.Type)
+	T := c.resolveType(r.Type)
 	if T == nil {
 		return false, "type " + r.Type + " not found"
 	}
 	fn := c.method(T, r.Fn)
+	if r.Type == "hash" && r.Fn == "init" {
+		fn = c.roles().hashInit
+	}
 	if fn == nil {
 		return false, r.Type + "." + r.Fn + " not found"
 	}
@@ -150,7 +153,7 @@ func (c *Ctx) reqHolds(r verifyReq) (bool, string) {
 func ruleVerifyReq(c *Ctx) {
 	for _, r := range verifyReqs {
 		key := fmt.Sprintf("lz.%s.%s:%s", r.Type, r.Fn, strings.ReplaceAll(r.Text, " ", ""))
-		T := c.namedType(c.lz, r.Type)
+		T := c.resolveType(r.Type)
 		var pos token.Pos
 		if T != nil {
 			if fn := c.method(T, r.Fn); fn != nil {
@@ -347,7 +350,7 @@ func (c *Ctx) panicTable() []panicDischarge {
 			viaReq(reqByText("BufConfig", "1 ≤ BufferSize"))},
 		{"lz.(*gsap).sort", "n too large", "verify", "len(Data) ≤ BufferSize ≤ MaxInt32",
 			viaReq(reqByText("GSAPConfig", "BufferSize ≤ MaxInt32"))},
-		{"lz.(*optSuffixArrayParser).computeEdges", "too large", "verify", "len(Data) ≤ BufferSize ≤ MaxInt32",
+		{"lz.(*optSuffixArrayParser).computeEdges", "len(data)=", "verify", "len(Data) ≤ BufferSize ≤ MaxInt32",
 			viaReq(reqByText("OSAPConfig", "BufferSize ≤ MaxInt32"))},
 		{"lz.(*bitset).insert", "negative", "construction", "arguments are suffix-array ranks int(isa[i]) ≥ 0",
 			func(c *Ctx, site *ssa.Panic) (bool, string) { return c.bitsetArgsNonNeg(site.Parent()) }},
@@ -471,6 +474,23 @@ func rulePanic(c *Ctx) {
 		"suffix.": "algorithm-internal invariant of the DivSufSort implementation (not decided; C09 is not claimed for sorter internals)",
 	}
 	n := 0
+	pkgPrefix := func(s string) string { return strings.SplitN(s, ".", 2)[0] }
+	msgSites := make([]int, len(table))
+	exactHit := make([]bool, len(table))
+	for _, fn := range fns {
+		for _, b := range fn.Blocks {
+			if p, ok := b.Instrs[len(b.Instrs)-1].(*ssa.Panic); ok {
+				for i := range table {
+					if table[i].Match != "" && pkgPrefix(table[i].Fn) == pkgPrefix(fnName(fn)) && strings.Contains(msgOfPanic(p), table[i].Match) {
+						msgSites[i]++
+					}
+					if table[i].Fn == fnName(fn) && (table[i].Match == "" || strings.Contains(msgOfPanic(p), table[i].Match)) {
+						exactHit[i] = true
+					}
+				}
+			}
+		}
+	}
 	for _, fn := range fns {
 		name := fnName(fn)
 		k := 0
@@ -488,6 +508,16 @@ func rulePanic(c *Ctx) {
 				if table[i].Fn == name && (table[i].Match == "" || strings.Contains(msg, table[i].Match)) {
 					d = &table[i]
 					break
+				}
+			}
+			if d == nil {
+				// a private function may have been renamed: the entry is then identified by its package and
+				// its message, provided exactly one reachable panic site of the package carries that message
+				for i := range table {
+					if table[i].Match != "" && msgSites[i] == 1 && pkgPrefix(table[i].Fn) == pkgPrefix(name) && strings.Contains(msg, table[i].Match) && !exactHit[i] {
+						d = &table[i]
+						break
+					}
 				}
 			}
 			if d == nil {
